@@ -241,7 +241,8 @@ func perms(n int) [][]int {
 }
 
 func engineOrder(f *rep.Flags, res *rep.Result) {
-	idxAlphabet := []string{"00", "05", "10", "50", "99"}
+	// 08 and 09 are not octal numbers; 00 and 99 are the ends of the range
+	idxAlphabet := []string{"00", "05", "08", "09", "10", "50", "99"}
 	maxN := 3
 	if f.Thorough() {
 		maxN = 4
@@ -343,7 +344,7 @@ func main() {
 		res.Rule = "all 8192 masks installed through the real plugin.configure x 13 lifecycle calls through the public Adaptation methods; plus every sequence of <= 3 lifecycle calls against three plugins with boundary masks; distinct = (mask, call) pairs and sequences, all non-trivial"
 		engineMasks(f, res)
 	case "order":
-		res.Rule = "every sequence of indices over {00,05,10,50,99} (incl. equal indices) of length <= 3 (4 thorough), every registration order, every lifecycle call; a handler error at every position; distinct = (indices, order, call[, veto position])"
+		res.Rule = "every sequence of indices over {00,05,08,09,10,50,99} (incl. equal indices) of length <= 3 (4 thorough), every registration order, every lifecycle call; a handler error at every position; distinct = (indices, order, call[, veto position])"
 		engineOrder(f, res)
 	case "sched":
 		engineSched(f, res)
